@@ -210,6 +210,10 @@ FaultRows(class) ==
             [r |-> IF PType = PT_QUADS THEN "quad" ELSE "triple", s |-> Bn0, p |-> Bn0]} ELSE {}
     [] class = "repeated-term-in-quoted-triple" ->
          {InSlot(i, [t |-> "qt", s |-> Bn0, o |-> Bn0]) : i \in {1, 3}} \cup {InSlot(3, [t |-> "qt", p |-> Bn0, o |-> Bn0])}
+         \* ... also at depth 2, and in a slot that FOLLOWS a complete nested quoted triple
+         \cup {InSlot(i, [t |-> "qt", s |-> [t |-> "qt", s |-> Bn0, p |-> Bn0, o |-> Bn0], o |-> Bn0]) : i \in {1, 3}}
+         \cup {InSlot(3, [t |-> "qt", s |-> [t |-> "qt", s |-> Bn0, p |-> Bn0, o |-> Bn0], p |-> Bn0])}
+         \cup {InSlot(3, [t |-> "qt", s |-> Bn0, p |-> Bn0, o |-> [t |-> "qt", s |-> Bn0, o |-> Bn0]])}
     [] class = "row-kind-forbidden-by-physical-type" ->
          CASE PType = PT_TRIPLES -> {[r |-> "quad", s |-> Bn0, p |-> Bn0, o |-> Bn0, g |-> [t |-> "dg"]], [r |-> "gs", g |-> [t |-> "dg"]], [r |-> "ge"]}
            [] PType = PT_QUADS -> {[r |-> "triple", s |-> Bn0, p |-> Bn0, o |-> Bn0], [r |-> "gs", g |-> [t |-> "dg"]]}
